@@ -161,6 +161,54 @@ Definition endpoint_call {R} (F : list backend -> ctx -> request -> R) (bs : lis
   | BShadowed reg _ t => let '(x, s) := shadow_proxy (F reg) tok now t c r in Some (x, Some s)
   end.
 
+(* ---- one endpoint serving a history of requests ----
+   The endpoint's state between requests is the set of shadow calls still in flight (spawned,
+   not yet returned: hung backends stay there until their context ends).  The code keeps no
+   such state: a client call spawns its shadow goroutine unconditionally and never waits for
+   an earlier one.  Events: a client call, or the k-th in-flight shadow call returning. *)
+Inductive hevent :=
+| HCall (tok : nat) (now : Z) (c : ctx) (r : request)
+| HShadowEnds (k : nat).
+
+Fixpoint remove_nth {A} (k : nat) (l : list A) : list A :=
+  match l, k with
+  | [], _ => []
+  | _ :: r, O => r
+  | x :: r, S k' => x :: remove_nth k' r
+  end.
+
+(* one client call given the shadow calls in flight: (what the caller gets, in flight after) *)
+Definition serve {R} (F : list backend -> ctx -> request -> R) (bs : list backend)
+                 (inflight : list spawned) (tok : nat) (now : Z) (c : ctx) (r : request)
+  : option R * list spawned :=
+  match endpoint_call F bs tok now c r with
+  | None => (None, inflight)
+  | Some (x, None) => (Some x, inflight)
+  | Some (x, Some s) => (Some x, (inflight ++ [s])%list)
+  end.
+
+(* what the callers get along a history, starting with [inflight] pending shadow calls *)
+Fixpoint history {R} (F : list backend -> ctx -> request -> R) (bs : list backend)
+                 (inflight : list spawned) (es : list hevent) : list (option R) :=
+  match es with
+  | [] => []
+  | HCall tok now c r :: rest =>
+      let '(x, inflight') := serve F bs inflight tok now c r in x :: history F bs inflight' rest
+  | HShadowEnds k :: rest => history F bs (remove_nth k inflight) rest
+  end.
+
+(* the variant with a per-endpoint bound on shadow calls in flight, acquired on the caller's
+   goroutine before the regular proxy runs: with [cap] calls pending the client call does not
+   return (None) until some shadow call ends *)
+Definition serve_bounded {R} (cap : nat) (F : list backend -> ctx -> request -> R) (bs : list backend)
+                         (inflight : list spawned) (tok : nat) (now : Z) (c : ctx) (r : request)
+  : option R * list spawned :=
+  match shadow_new bs with
+  | BShadowed _ _ _ => if (cap <=? List.length inflight)%nat then (None, inflight)
+                       else serve F bs inflight tok now c r
+  | _ => serve F bs inflight tok now c r
+  end.
+
 (* merge timeout of a multi-backend pipeline: time.Duration(85*ns/100) *)
 Definition merge_timeout (endpoint_timeout : Z) : Z := Z.quot (85 * endpoint_timeout)%Z 100%Z.
 
